@@ -19,5 +19,7 @@ import (
 	_ "polycheck/props/c15"
 	_ "polycheck/props/c16"
 	_ "polycheck/props/c17"
+	_ "polycheck/props/c18"
 	_ "polycheck/props/c19"
+	_ "polycheck/props/c20"
 )
